@@ -24,11 +24,18 @@ def _one(sc):
                 "stalls": 0, "badframes": 0, "live_max": 0, "lines": 0, "fired_at": None, "wall": time.time() - t0}
 
 
+def _init_worker():
+    # the forked worker inherits the parent's heap (all scenarios): keep it out of every later gc.collect()
+    import gc
+    gc.collect()
+    gc.freeze()
+
+
 def run_real_many(scs, jobs=None):
     jobs = jobs or min(16, os.cpu_count() or 4)
     if len(scs) < 40 or jobs <= 1:
         return [_one(sc) for sc in scs]
-    with _CTX.Pool(jobs) as pool:
+    with _CTX.Pool(jobs, initializer=_init_worker) as pool:
         return pool.map(_one, scs, chunksize=max(1, min(64, len(scs) // (jobs * 4))))
 
 
